@@ -28,13 +28,29 @@ Print Assumptions C02_encodable.
 
 (* SEARCH, stage by stage: the server's readSearchKey returns the keys writeSearchKey sent for
    every criteria tree ... *)
-Theorem C02_search_keys : forall cfg c segs rest fuel d,
+Theorem C02_search_keys : forall cfg c segs rest fuel d kd,
   client_side cfg = true -> wf_crit c ->
-  (d + crit_depth c < MAX_DEPTH)%nat -> (2 * crit_depth c <= fuel)%nat -> delimited rest ->
+  (d + crit_depth c < MAX_DEPTH)%nat -> (kd + crit_depth c < MAX_DEPTH)%nat ->
+  (2 * crit_depth c <= fuel)%nat -> delimited rest ->
   w_key cfg c = Some segs ->
-  read_key fuel d (flatten segs ++ rest) = Some (KList (keys_sent c), rest).
+  read_key fuel d kd (flatten segs ++ rest) = Some (KList (keys_sent c), rest).
 Proof. exact read_key_w_key. Qed.
 Print Assumptions C02_search_keys.
+
+(* ... and the excluded case: at maxSearchKeyDepth enclosing NOT / OR keys (kd) readSearchKey
+   refuses, for every input and every fuel; the recursion through NOT / OR is bounded like the
+   one through parentheses *)
+Theorem C02_search_key_too_deep : forall fuel d kd s,
+  (MAX_DEPTH <= kd)%nat -> read_key fuel d kd s = None.
+Proof. exact read_key_too_deep. Qed.
+Print Assumptions C02_search_key_too_deep.
+
+(* in particular a chain of NOT keys, which needs no parenthesis and no login, is refused once
+   it is maxSearchKeyDepth long, whatever follows it *)
+Theorem C02_search_not_chain_refused : forall n fuel d kd s,
+  (MAX_DEPTH <= kd + n)%nat -> read_key fuel d kd (not_chain n s) = None.
+Proof. exact read_key_not_chain. Qed.
+Print Assumptions C02_search_not_chain_refused.
 
 (* ... folding them with SearchCriteria.And rebuilds the caller's tree: no key is merged with
    its neighbour, dropped or weakened ... *)
